@@ -117,8 +117,12 @@ pub fn opt_lines(rng: &mut Rng, maxvars: usize, maxops: usize) -> Vec<String> {
             // utility carried by the negative literal of a utility variable (one case in two)
             let uls: Vec<u64> = util.iter().map(|_| if rng.coin() { rng.below(11) } else { 0 }).collect();
             let pr: Vec<u64> = (0..n).map(|_| rng.below(9)).collect();
+            // a utility variable is either a pure reward indicator (probability component 1 on
+            // both literals, value 9 below) or a chance variable that carries its reward itself
+            // (probabilities k/8 and 1 - k/8)
+            let ups: Vec<u64> = util.iter().map(|_| if rng.coin() { 9 } else { rng.below(9) }).collect();
             let head = format!(
-                "opt kind=meu n={} order={} d={} dec={} util={} us={} uls={} pr={}",
+                "opt kind=meu n={} order={} d={} dec={} util={} us={} uls={} ups={} pr={}",
                 n,
                 csv(&prog.order),
                 bdd_raw_string(d),
@@ -126,6 +130,7 @@ pub fn opt_lines(rng: &mut Rng, maxvars: usize, maxops: usize) -> Vec<String> {
                 csv(&util),
                 csv(&us),
                 csv(&uls),
+                csv(&ups),
                 csv(&pr)
             );
             let r = guarded(|| {
@@ -134,7 +139,12 @@ pub fn opt_lines(rng: &mut Rng, maxvars: usize, maxops: usize) -> Vec<String> {
                     let wv = if dec.contains(&v) {
                         (ExpectedUtility(1.0, 0.0), ExpectedUtility(1.0, 0.0))
                     } else if let Some(i) = util.iter().position(|&u| u == v) {
-                        (ExpectedUtility(1.0, uls[i] as f64), ExpectedUtility(1.0, us[i] as f64))
+                        if ups[i] == 9 {
+                            (ExpectedUtility(1.0, uls[i] as f64), ExpectedUtility(1.0, us[i] as f64))
+                        } else {
+                            let k = ups[i] as f64 / 8.0;
+                            (ExpectedUtility(1.0 - k, uls[i] as f64), ExpectedUtility(k, us[i] as f64))
+                        }
                     } else {
                         (ExpectedUtility(pr[v] as f64 / 8.0, 0.0), ExpectedUtility(1.0 - pr[v] as f64 / 8.0, 0.0))
                     };
